@@ -1028,6 +1028,8 @@ type limitSink struct {
 	k        int
 	accepted int
 	short    bool
+	silent   bool // short writes WITHOUT an error (a sink that breaks the io.Writer contract)
+	at       int // the one write call (1-based) that is short
 	calls    int
 }
 
@@ -1036,9 +1038,12 @@ var errSink = errors.New("scripted sink failure")
 func (s *limitSink) Write(p []byte) (int, error) {
 	s.calls++
 	if s.short { // short writes: accept half of every other write, as io.Writer allows with an error
-		if s.calls%3 == 0 && len(p) > 1 {
+		if s.calls == s.at && len(p) > 1 {
 			n := len(p) / 2
 			s.accepted += n
+			if s.silent {
+				return n, nil
+			}
 			return n, io.ErrShortWrite
 		}
 		s.accepted += len(p)
@@ -1270,11 +1275,28 @@ func (rn *Runner) Run() {
 				r.Emit("out", "k", k, "op", "sink", "ok", false, "err", werr != nil, "panic", pan != "", "n", n,
 					"accepted", s.accepted, "len", len(first), "id", 0, "faulted", true, "text", clipErr(werr, pan))
 			}
-		case "short":
-			s := &limitSink{short: true}
-			n, werr, pan := safeWriteTo(built.Msg, s)
-			r.Emit("out", "k", 0, "op", "short", "ok", false, "err", werr != nil, "panic", pan != "", "n", n,
-				"accepted", s.accepted, "len", len(first), "id", 0, "faulted", true, "text", clipErr(werr, pan))
+		case "short", "shortnil":
+			// every write call of the rendering is the short one in one run
+			probe := &limitSink{short: true, at: -1}
+			if pb, err := Build(sc.Prog, seed, 0, "", rn.TmpDir); err == nil {
+				_, _, _ = safeWriteTo(pb.Msg, probe)
+				pb.Close()
+			}
+			for at := 1; at <= probe.calls; at++ {
+				fb, err := Build(sc.Prog, seed, 0, "", rn.TmpDir)
+				if err != nil {
+					rn.Infra = err
+					return
+				}
+				s := &limitSink{short: true, silent: f.Kind == "shortnil", at: at}
+				n, werr, pan := safeWriteTo(fb.Msg, s)
+				fb.Close()
+				if s.accepted == len(first) { // that call carried a single byte: nothing was short
+					continue
+				}
+				r.Emit("out", "k", at, "op", f.Kind, "ok", false, "err", werr != nil, "panic", pan != "", "n", n,
+					"accepted", s.accepted, "len", len(first), "id", 0, "faulted", true, "text", clipErr(werr, pan))
+			}
 		case "producer":
 			if f.Slot > len(built.Slots) {
 				break // the program has no such slot: nothing to fail
